@@ -155,6 +155,9 @@ func SymClock() time.Time
 func SameInstant(a, b time.Time) bool
 func BytesEq(a, b []byte) bool
 
+// StringConsts: "Name|Type|Value" of every string constant declared in the emitted source (sorted).
+func StringConsts(src string) []string
+
 // MethodTypes: the names of the types in the emitted source that declare the method (sorted).
 func MethodTypes(src, method string) []string
 
